@@ -135,29 +135,59 @@ func c14Restart(r *R) {
 	r.c.Floor("C14.3", nErr, 1, "attempt-failed paths")
 	// the debounced entry point funnels into restartChannel only
 	r.onlyCallers("C14.3", "(*channelmonitor.monitoredChannel).restartChannel", 1, "channelmonitor.newMonitoredChannel")
-	r.onlyCallers("C14.3", "(*channelmonitor.monitoredChannel).doRestartChannel", 2, "(*channelmonitor.monitoredChannel).restartChannel", "(*channelmonitor.monitoredChannel).doRestartChannel")
+	r.onlyCallers("C14.3", "(*channelmonitor.monitoredChannel).doRestartChannel", 1, "(*channelmonitor.monitoredChannel).restartChannel", "(*channelmonitor.monitoredChannel).doRestartChannel")
 }
 
 func c14Bound(r *R) {
 	fn := r.fn("C14.4", "channelmonitor", "monitoredChannel", "doRestartChannel")
 	if fn != nil {
-		// the counter read is the incremented value, under the lock
-		var inc *ssa.Store
-		for _, b := range fn.Blocks {
-			for _, ins := range b.Instrs {
-				if st, ok := ins.(*ssa.Store); ok && r.d.Of(st.Addr) == "mc.consecutiveRestarts" {
-					inc = st
+		// per path (helpers introduced later are walked through): the counter only ever
+		// moves by one, each attempt comes after an increment, and is made only while the
+		// incremented count is within the limit
+		over := "mc.cfg.MaxConsecutiveRestarts<uint32(mc.consecutiveRestarts)"
+		isSend := r.p.Is("(*channelmonitor.monitoredChannel).sendRestartMessage")
+		nInc, nSend := 0, 0
+		badInc, badOrder, badGuard := "", "", ""
+		for _, pt := range r.pathsOf("C14.4", fn) {
+			var incs []ssa.Instruction
+			for _, st := range pt.Stores() {
+				if st.Addr != "mc.consecutiveRestarts" {
+					continue
+				}
+				nInc++
+				incs = append(incs, st.Instr)
+				if st.Val != "(mc.consecutiveRestarts+1:int)" && badInc == "" {
+					badInc = "counter updated to " + st.Val + " on " + pt.Describe()
+				}
+			}
+			seen := 0
+			for _, ev := range pt.Evs {
+				if !isSend(ev) {
+					continue
+				}
+				nSend++
+				seen++
+				before := 0
+				for _, in := range incs {
+					if pt.Precedes(in, ev.Instr) {
+						before++
+					}
+				}
+				if before < seen && badOrder == "" {
+					badOrder = "a restart attempt is made without counting it first: " + pt.Describe()
+				}
+				if !pt.HasBefore(ev.Instr, "-"+over) && badGuard == "" {
+					badGuard = "a restart attempt is made without the incremented count having been found within MaxConsecutiveRestarts: " + pt.Describe()
 				}
 			}
 		}
-		if inc == nil {
+		if nInc == 0 {
 			r.c.Bad("C14.4", "counter-increment", r.p.Pos(fn.Pos()), "doRestartChannel does not increment the consecutive-restart counter")
 		} else {
-			r.c.Check(r.d.Of(inc.Val) == "(mc.consecutiveRestarts+1:int)", "C14.4", "counter-increment", r.p.InstrPos(inc), "counter incremented by one per attempt", "counter updated to "+r.d.Of(inc.Val))
+			r.c.Check(badInc == "" && badOrder == "", "C14.4", "counter-increment", r.p.Pos(fn.Pos()), "counter incremented by one before each attempt", badInc+badOrder)
 		}
-		for _, s := range r.guardedCalls("C14.4", fn, false, "(*channelmonitor.monitoredChannel).sendRestartMessage", 1, "-mc.cfg.MaxConsecutiveRestarts<uint32(mc.consecutiveRestarts)") {
-			_ = s
-		}
+		r.c.Check(badGuard == "", "C14.4", core.ShortFn(fn)+"→(*channelmonitor.monitoredChannel).sendRestartMessage", r.p.Pos(fn.Pos()), "attempts only within the limit", badGuard)
+		r.c.Floor("C14.4", nSend, 1, "restart attempts on the paths of doRestartChannel")
 		// the over-limit path returns an error without sending
 		n := 0
 		for _, pt := range r.pathsOf("C14.4", fn) {
